@@ -173,7 +173,7 @@ macro_rules | `(tactic| good_lemma) => `(tactic| with_reducible exact good_refAl
 
 theorem good_valueOf_go {n o} : Good (valueOf.go n o) := by
   induction n generalizing o with
-  | zero => unfold valueOf.go; good
+  | zero => cases o <;> simp only [valueOf.go] <;> good
   | succ n ih => cases o <;> simp only [valueOf.go] <;> good using @ih
 macro_rules | `(tactic| good_lemma) => `(tactic| with_reducible exact good_valueOf_go)
 theorem good_valueOf {o} : Good (valueOf o) := by unfold valueOf; good
@@ -242,6 +242,16 @@ theorem good_deleteMapEntry {l i} : Good (deleteMapEntry l i) := by unfold delet
 macro_rules | `(tactic| good_lemma) => `(tactic| with_reducible exact good_deleteMapEntry)
 theorem good_cacheGet {k a} : Good (cacheGet k a) := by unfold cacheGet; good
 macro_rules | `(tactic| good_lemma) => `(tactic| with_reducible exact good_cacheGet)
+theorem good_derefList {l} : Good (derefList l) := by
+  induction l with
+  | nil => unfold derefList; good
+  | cons x xs ih => unfold derefList; good using @ih
+macro_rules | `(tactic| good_lemma) => `(tactic| with_reducible exact good_derefList)
+theorem good_bindParams {nenv l} : Good (bindParams nenv l) := by
+  induction l with
+  | nil => unfold bindParams; good
+  | cons x xs ih => obtain ⟨p, a⟩ := x; unfold bindParams; good using @ih
+macro_rules | `(tactic| good_lemma) => `(tactic| with_reducible exact good_bindParams)
 theorem good_extendFunctionEnv {f a} : Good (extendFunctionEnv f a) := by unfold extendFunctionEnv; good
 macro_rules | `(tactic| good_lemma) => `(tactic| with_reducible exact good_extendFunctionEnv)
 
@@ -280,6 +290,9 @@ theorem good_cacheSet {k a r o} : Good (cacheSet k a r o) := by
   repeat' sat_step
 macro_rules | `(tactic| good_lemma) => `(tactic| with_reducible exact good_cacheSet)
 
+
+theorem good_finishCall {f a c b af cc r o} : Good (finishCall f a c b af cc r o) := by unfold finishCall; good
+macro_rules | `(tactic| good_lemma) => `(tactic| with_reducible exact good_finishCall)
 
 theorem good_eval_succ {n} (h : ∀ node, Good (evalI n node)) (node) : Good (eval (n+1) node) := by
   refine good_of_sat fun st => ?_
